@@ -275,6 +275,14 @@ static RCP<const T> need(const RCP<const Basic> &b)
     return rcp_static_cast<const T>(b);
 }
 
+template <class T>
+static T nonzero(T x)
+{
+    if (x == 0)
+        throw DivisionByZeroError("zero denominator");
+    return x;
+}
+
 // the value of argument i as the oracle sees it
 static CV argval_mirror(const Call &c, int i)
 {
@@ -361,10 +369,11 @@ static void init_mirror()
     MIRROR("integer_set_ui", "integer(integer_class($))", (1), OUT(0), RB(integer(integer_class(MU(1)))))
     MIRROR("integer_set_str", "integer(integer_class($))", (1), OUT(0), RB(integer(integer_class(MT(1)))))
     MIRROR("real_double_set_d", "real_double($)", (1), OUT(0), RB(real_double(MD(1))))
+    // a zero denominator is a division by zero (GMP itself would raise SIGFPE)
     MIRROR("rational_set_si", "Rational::from_mpq(rational_class($,$))", (1, 2), OUT(0),
-           RB(Rational::from_mpq(rational_class(ML(1), ML(2)))))
+           RB(Rational::from_mpq(rational_class(ML(1), nonzero(ML(2))))))
     MIRROR("rational_set_ui", "Rational::from_mpq(rational_class($,$))", (1, 2), OUT(0),
-           RB(Rational::from_mpq(rational_class(MU(1), MU(2)))))
+           RB(Rational::from_mpq(rational_class(MU(1), nonzero(MU(2))))))
     // cwrapper.h: "Returns SYMENGINE_RUNTIME_ERROR if either i or j is not an integer"
     MIRROR("rational_set", "Rational::from_two_ints($,$)", (1, 2), OUT(0),
            RB(Rational::from_two_ints(*need<Integer>(MB(1)), *need<Integer>(MB(2)))))
